@@ -34,10 +34,41 @@ def _word(rng, pool, n):
     return "".join(rng.choice(pool) for _ in range(n))
 
 
+def gen_extreme(rng):
+    """Extreme count ratios, so that a conditional transition (and a length) is smoothed to the CAP level 10 although
+    it was seen: _calc_level gives 10 for a CP seen less than ~1/44000 of its prefix, for a length seen less than
+    ~1/22000 of the list.  One prefix is followed ~50-100k times by its usual letters and once or twice by rare ones;
+    the rare letter is the LAST transition of one password, an inner transition of another, and follows the second
+    prefix of a third.  The counts go through the trainer's own prefixcount reader ("<n> <password>" lines)."""
+    ngram = rng.choice([2, 3, 4, 4])
+    letters = list("abcdefghkmnpqrstuvwxyz12")
+    rng.shuffle(letters)
+    stem = "".join(letters[:ngram])                 # all different: a tiny, enumerable grammar
+    ext, rare1, rare2, rare3, tail, other = letters[ngram:ngram + 6]
+    big = rng.randint(46000, 70000)
+    mid = rng.randint(20000, 47000)
+    items = [(stem, big), (stem + ext, mid),
+             (stem[:-1] + rare1, 1),                # level-10 transition is the last one, length = ngram
+             (stem[:-1] + rare2 + tail, rng.choice([1, 2])),   # level-10 transition followed by another one
+             (stem + rare3, 1),                     # rare letter after the prefix stem[1:]
+             (stem + ext + tail * rng.randint(2, 4), 1),       # a length seen once among > 22026: LN level 10
+             (other + stem[1:], 1)]                 # a rare initial n-gram (IP level 5..6)
+    for _ in range(rng.randint(0, 4)):
+        items.append((stem + rng.choice([ext, tail, rare1]) * rng.randint(0, 2), rng.choice([1, 3, 40, 900])))
+    rng.shuffle(items)
+    merged = {}
+    for pw, n in items:
+        merged[pw] = merged.get(pw, 0) + n
+    return {"kind": "extreme", "passwords": list(merged), "counts": list(merged.values()), "ngram": ngram,
+            "alphabet_size": 30, "max_len": rng.choice([21, 21, ngram + 6]), "encoding": "utf-8"}
+
+
 def gen_training(rng, kind=None):
     """A small training list and the trainer configuration.
-    Returns dict(kind, passwords, ngram, alphabet_size, max_len, encoding)."""
+    Returns dict(kind, passwords, ngram, alphabet_size, max_len, encoding [, counts])."""
     kind = kind or rng.choice(KINDS)
+    if kind == "extreme":
+        return gen_extreme(rng)
     ngram = rng.choice([2, 2, 3, 3, 4])
     asize = rng.randint(2, 8)
     encoding = "utf-8"
@@ -134,11 +165,14 @@ class Trained:
         enc = cfg["encoding"]
         os.makedirs(base_dir, exist_ok=True)
         tf = os.path.join(base_dir, "training.txt")
+        counts = cfg.get("counts")
+        pc = bool(counts)
         with open(tf, "wb") as f:
-            for p in cfg["passwords"]:
-                f.write(p.encode(enc, errors="surrogateescape") + b"\n")
+            for i, p in enumerate(cfg["passwords"]):
+                pre = ("%d " % counts[i]).encode("ascii") if pc else b""
+                f.write(pre + p.encode(enc, errors="surrogateescape") + b"\n")
         # pass 1
-        fi = TrainerFileInput(tf, enc)
+        fi = TrainerFileInput(tf, enc, pc)
         ag = AlphabetGenerator(cfg["alphabet_size"], cfg["ngram"])
         self.valid = []
         for pw in fi.read_password():
@@ -147,7 +181,7 @@ class Trained:
         self.alphabet = ag.get_alphabet()
         self.num_valid = fi.num_passwords
         # pass 2
-        fi = TrainerFileInput(tf, enc)
+        fi = TrainerFileInput(tf, enc, pc)
         tr = AlphabetLookup(alphabet=self.alphabet, ngram=cfg["ngram"], max_length=cfg["max_len"])
         for pw in fi.read_password():
             tr.parse(pw)
@@ -171,7 +205,7 @@ class Trained:
                 v.pop("keyspace_cache", None)
             self.keyspace_small_cold, _, _ = common.quiet_call(calc_omen_keyspace, cold, 18, max_keyspace)
         # pass 3
-        fi = TrainerFileInput(tf, enc)
+        fi = TrainerFileInput(tf, enc, pc)
         self.levels_count = Counter()
         for pw in fi.read_password():
             self.levels_count[find_omen_level(tr, pw)] += 1
@@ -308,6 +342,19 @@ def coq_tables(tb):
     return "(mk_ttab %s %s %s\n  %s\n  %s)" % (cnat(tb["ngram"]), cnat(tb["min_len"]), cnat(tb["max_len"]), g, ln)
 
 
+def coq_pws_rle(pws):
+    """list of passwords in file order -> `expand_pws [...]` (run-length encoded)"""
+    runs = []
+    for p in pws:
+        if runs and runs[-1][0] == p:
+            runs[-1][1] += 1
+        else:
+            runs.append([p, 1])
+    if not runs:
+        return "(@nil (list N))"
+    return "(expand_pws %s)" % common.clist(["(%s, %d%%N)" % (common.cstr(p), n) for p, n in runs])
+
+
 def coq_level(l):
     """Python level (-1 = cannot be generated) -> option nat"""
     return "None" if l is None or l < 0 else "(Some %s)" % cnat(l)
@@ -393,12 +440,18 @@ def shrink_training(cfg, still_fails, seconds=4.0):
     failing training configuration; still_fails(cfg) -> bool re-runs the real code."""
     t0 = time.time()
     best = dict(cfg)
-    pws = list(best["passwords"])
+    has_counts = bool(cfg.get("counts"))
+    pws = list(zip(best["passwords"], cfg["counts"])) if has_counts else list(best["passwords"])
+
+    def build(cand):
+        if has_counts:
+            return dict(best, passwords=[p for p, _ in cand], counts=[n for _, n in cand])
+        return dict(best, passwords=cand)
 
     def ok(cand):
         if time.time() - t0 > seconds:
             return False
-        c = dict(best, passwords=cand)
+        c = build(cand)
         try:
             return bool(still_fails(c))
         except Exception:
@@ -420,12 +473,14 @@ def shrink_training(cfg, still_fails, seconds=4.0):
             n = min(len(pws), n * 2)
     # shorten single passwords from the right
     for i in range(len(pws)):
+        if has_counts:
+            break
         while len(pws[i]) > 1 and time.time() - t0 < seconds:
             cand = pws[:i] + [pws[i][:-1]] + pws[i + 1:]
             if ok(cand):
                 pws = cand
             else:
                 break
-    best["passwords"] = pws
+    best = build(pws)
     best["kind"] = cfg.get("kind", "") + "/shrunk"
     return best
